@@ -70,6 +70,9 @@ def _convert_to_series(vec: Any) -> pd.Series:
             vec = pd.Series(vec)
     else:
         vec = vec.reset_index(drop=True)
+    if vec.dtype.kind in "mM" and vec.dt.unit != "ns":
+        # step points are kept at nanosecond resolution: bounds between coarser ticks would be truncated later
+        vec = vec.dt.as_unit("ns")
     return vec
 
 
